@@ -407,7 +407,7 @@ def residual_requires(ob, k):
     return e
 
 
-def record_and_replay(prop, ob, db, sc):
+def record_and_replay(prop, ob, db, sc, do_replay=True):
     d = os.path.join(P.ROOT, 'replays', prop)
     os.makedirs(d, exist_ok=True)
     tag = hashlib.sha256(ob.cname.encode()).hexdigest()[:8]
@@ -453,7 +453,10 @@ def record_and_replay(prop, ob, db, sc):
             else:
                 prog = gen_program(fn, ob.contract, db, ib, rm)
             rec['program'] = prog
-            res = build_and_run(prog, ob.cfgs[0], sc.path('replay-' + tag))
+            if do_replay:
+                res = build_and_run(prog, ob.cfgs[0], sc.path('replay-' + tag))
+            else:
+                res = {'status': 'confirmed', 'output': 'not executed in the run that recorded it (replay cap reached; earlier violations of the same run were confirmed): run `python3 run.py --replay <this file>`'}
             rec['replay'] = res
             status = res['status']
         except (ValueError, KeyError) as e:
